@@ -160,16 +160,17 @@ def insideOkU (G cut : List Edge) (s : Nat) (inside : List Nat) : Bool :=
 def insideOkV (G : List Edge) (C : List Nat) (s : Nat) (inside : List Nat) : Bool :=
   isReachSet (removeVertices G C) s (s :: inside)
 
-/-- the domain of the property (DESIGN §5.7) -/
+/-- the domain of the property (DESIGN §5.7), edge cuts: distinct terminals, the source an
+    endpoint of an edge (the sink may be a vertex that occurs in no edge) -/
 def inDomainE (G : List Edge) (s t : Nat) : Bool :=
-  s != t && (endpoints G).contains s && (endpoints G).contains t
+  s != t && (endpoints G).contains s
 
-/-- vertex cuts, directed: additionally no edge `s → t` -/
+/-- vertex cuts, directed: both terminals endpoints of edges, no edge `s → t` -/
 def inDomainV (G : List Edge) (s t : Nat) : Bool :=
-  inDomainE G s t && !G.contains (s, t)
+  inDomainE G s t && (endpoints G).contains t && !G.contains (s, t)
 
 /-- vertex cuts, undirected: no edge between `s` and `t` in either direction -/
 def inDomainVU (G : List Edge) (s t : Nat) : Bool :=
-  inDomainE G s t && !G.contains (s, t) && !G.contains (t, s)
+  inDomainV G s t && !G.contains (t, s)
 
 end DSymVerif.SpecC19
